@@ -3,6 +3,7 @@
 # Each patch is applied to /repo, analysed, and reverted (git checkout) immediately.
 cd /verif
 out=${1:-/verif/seeded/MATRIX.md}
+mkdir -p /tmp/matrix-verif/spec; cp spec/*.json /tmp/matrix-verif/spec/; cp known_findings.json /tmp/matrix-verif/
 echo "| change | intended property | properties whose check reports it | rules (first of each) |" > $out
 echo "|---|---|---|---|" >> $out
 for p in seeded/*/patch.diff mutants/*.patch; do
@@ -10,7 +11,7 @@ for p in seeded/*/patch.diff mutants/*.patch; do
   intended=$(echo $name | cut -d- -f1)
   git -C /repo apply $(realpath $p) 2>/dev/null || { echo "| $name | $intended | PATCH DOES NOT APPLY | |" >> $out; continue; }
   res=$(bin/dhcpverif check all --verif /tmp/matrix-verif 2>&1)
-  git -C /repo checkout -- .
+  git -C /repo checkout -- . ; git -C /repo clean -fdq
   props=$(echo "$res" | grep "^VIOLATION" | sed 's/.*property=\(C[0-9]*\).*/\1/' | sort -u | tr '\n' ' ')
   rules=$(echo "$res" | grep -A1 "^VIOLATION" | grep "rule=" | sed 's/.*rule=\([A-Za-z0-9-]*\).*/\1/' | sort -u | tr '\n' ' ')
   echo "| $name | $intended | ${props:-NONE} | $rules |" >> $out
